@@ -73,6 +73,9 @@ TOTAL = [
     r"strip_prefix|strip_suffix|parse|to_owned|eq_ignore_ascii_case|is_char_boundary|get|to_ascii_\w+|to_lowercase|to_uppercase|as_ptr|matches|"
     r"match_indices|is_ascii|to_string|escape_\w+)$",
     r"^core::str::(converts::from_utf8|lossy|iter|pattern|validations)",
+    r"^core::str::traits::<impl core::cmp::(PartialEq|PartialOrd|Ord|Eq)(<.*>)? for str>::\w+$",
+    r"^core::str::traits::<impl core::str::traits::FromStr for \w+>::from_str$",
+    r"^<\w+ as core::str::traits::FromStr>::from_str$",
     r"^core::num::<impl [\w:]+ for \w+>::from_str$",
     r"^core::num::<impl \w+>::(checked_\w+|saturating_\w+|wrapping_\w+|overflowing_\w+|from_str|min|max|count_\w+|leading_\w+|trailing_\w+|to_\we_bytes|"
     r"from_\we_bytes|is_power_of_two|swap_bytes|rotate_\w+|signum|is_positive|is_negative|abs_diff|unsigned_abs)$",
